@@ -2,7 +2,7 @@
    Only property theorems here; each closed by `exact` of a lemma from Proofs/. *)
 From Flyt Require Import Base Script FlowTable Engine EngineCorr EngineFacts Lifecycle
      LifecycleProofs SpecEngine EngineSpecProofs.
-From Flyt Require Import C05Glue SpecBatch FwCauseProofs.
+From Flyt Require Import C05Glue SpecBatch FwCauseProofs BatchConc LatePrep.
 
 (* context already done: no callback, error matches the context's error (user node or flow) *)
 Theorem C05_pre_cancelled :
@@ -52,3 +52,25 @@ Theorem C05_specx_holds_of_model :
   forall sc : escen, spec_C05x sc (eobs_of_model (model_obs sc)) = true.
 Proof. exact spec_C05x_model_lemma. Qed.
 Print Assumptions C05_specx_holds_of_model.
+
+(* "no further node of the flow is started", for every kind of node: for every oracle, release
+   order of gated calls, table (full and partial user nodes, batch nodes, flows of any nesting),
+   fuel and start state - once the context is cancelled (before the run, or by a callback of the
+   run) no prep callback is made, except the one of a batch node that is itself the root of this
+   run (a batch node run directly looks at the context only per item; inside a flow it is not
+   started) *)
+Theorem C05_no_prep_after_cancel :
+  forall (o : oracle) rel (tbl : table) fuel s n s' oc,
+    run o (gated_exec o rel) tbl fuel s n = Some (s', oc) ->
+    exists evs, log s' = log s ++ evs /\
+      late_prep_ok (fun m => Nat.eqb m n && match tbl n with Some (NBatch _ _ _) => true | _ => false end)
+                   (cancelled s) evs = true.
+Proof. exact no_prep_after_cancel_lemma. Qed.
+Print Assumptions C05_no_prep_after_cancel.
+
+(* the predicate the case files apply since round 6 (spec_C05x and the clause above) holds of the
+   model's observation of EVERY scenario *)
+Theorem C05_specy_holds_of_model :
+  forall sc : escen, spec_C05y sc (eobs_of_model (model_obs sc)) = true.
+Proof. exact spec_C05y_model_lemma. Qed.
+Print Assumptions C05_specy_holds_of_model.
